@@ -264,19 +264,32 @@ def r4(tree, rep):
         rep.check("C01.R4", "%s.derive_key returns derive_key(self._key, to_bytes(purpose), length)" % cls, ok, site(fn, WH),
                   key="C01.R4:%s.derive_key" % cls)
         have_key = truthy_atom(lambda e: is_self_attr(e, "_key"))
-        ok = g.when_always_raises(have_key, False) and not g.only_when(rets, have_key, True)
-        rep.check("C01.R4", "%s.derive_key raises when no key is known" % cls, ok, site(fn, WH), key="C01.R4:%s.derive_key:nokey" % cls)
+        from ..cfg import none_atom
+        no_key = none_atom(lambda e: is_self_attr(e, "_key"))
+        ok_truthy = g.when_always_raises(have_key, False) and not g.only_when(rets, have_key, True)
+        ok_none = g.when_always_raises(no_key, True) and not g.only_when(rets, no_key, False)
+        rep.check("C01.R4", "%s.derive_key raises when no key is known" % cls, ok_truthy or ok_none, site(fn, WH), key="C01.R4:%s.derive_key:nokey" % cls)
+        # every value ever stored in _key is either the key handed to got_key or a "no key" marker that this guard rejects:
+        # None for an `is None` guard; None or any other falsy constant for a truthiness guard
         own, foreign = class_writers(tree, cls, "_key")
         good = bool(own) and not foreign
+
+        def marker(v):
+            if is_const(v, None):
+                return True
+            c = const(v)
+            return ok_truthy and c is not NOCONST and not c
         for w in own:
-            if w.fn in ("__init__", "__attrs_post_init__"):
-                good = good and is_const(w.value, None)
-            elif w.fn == "got_key":
-                good = good and isinstance(w.value, ast.Name) and w.value.id in params(tree.func(WH, cls, "got_key"))
-            else:
+            if w.kind != "assign":
                 good = False
-        rep.check("C01.R4", "%s._key is written only by got_key from its argument" % cls, good, own[0].site if own else WH,
-                  key="C01.R4:%s._key-writers" % cls)
+            elif w.fn == "got_key":
+                good = good and ((isinstance(w.value, ast.Name) and w.value.id in params(tree.func(WH, cls, "got_key"))) or marker(w.value))
+            else:
+                good = good and marker(w.value)
+        rep.check("C01.R4", "%s._key holds only the key handed to got_key, or a no-key marker that derive_key's guard rejects" % cls, good,
+                  own[0].site if own else WH, key="C01.R4:%s._key-writers" % cls,
+                  what="%s._key can hold a value that is neither the session key nor rejected by derive_key's no-key guard: derive_key "
+                       "derives from it (the same bytes on both sides whatever the codes were)" % cls)
     rep.check("C01.R4", "derive_key in wormhole.py is _key.derive_key", _imports_name(tree, WH, "derive_key", "_key"), WH,
               key="C01.R4:derive_key-import")
 
